@@ -33,6 +33,10 @@ inductive Method where
   | full | diag | eye | sdiag
   deriving Repr, DecidableEq, Inhabited
 
+/-- position of the method string in `METHOD_CODES` of harness/leaves/C14.py -/
+def Method.code : Method → Nat
+  | .full => 0 | .diag => 1 | .eye => 2 | .sdiag => 3
+
 section model
 variable {α : Type} [Add α] [Sub α] [Mul α] [Div α] [Neg α] [Zero α] [One α] [NatCast α]
 variable [LT α] [DecidableLT α] [LE α] [DecidableLE α] [Max α] [Min α]
@@ -69,9 +73,10 @@ def gram2 (rows : List (Row α)) : Mat α :=
 def covFullC (rows : List (Row α)) (dof : α) : Mat α :=
   fun j k => Rsa.Gen.C14.fullNorm (gram rows j k) dof
 
-/-- `_variance`: `np.diag(einsum('ij,ij->j') / dof)` -/
+/-- `_variance`: `np.diag(einsum('ij,ij->j') / dof)`; the argument of `np.diag` is the
+    derived leaf `varNorm` -/
 def varianceC (rows : List (Row α)) (dof : α) : Mat α :=
-  fun j k => if j = k then gram rows j j / dof else 0
+  fun j k => if j = k then Rsa.Gen.C14.varNorm (gram rows j j) dof else 0
 
 /-- Kronecker delta as a number (`np.eye`) -/
 def delta (j k : Nat) : α := if j = k then 1 else 0
@@ -87,7 +92,7 @@ def eyeS (rows : List (Row α)) : Mat α :=
 /-- `b2` before the `min`: `np.sum(s2_sum / n - s * s) / n` -/
 def eyeB2raw (rows : List (Row α)) (p : Nat) : α :=
   Rsa.Gen.C14.lwB2
-    (rsum2 p (fun j k => gram2 rows j k / (rows.length : α) - eyeS rows j k * eyeS rows j k))
+    (rsum2 p (fun j k => Rsa.Gen.C14.lwB2term (gram2 rows j k) (rows.length : α) (eyeS rows j k)))
     (rows.length : α)
 
 /-- `m = np.sum(np.diag(s)) / s.shape[0]` -/
@@ -96,8 +101,7 @@ def eyeM (rows : List (Row α)) (p : Nat) : α :=
 
 /-- `d2 = np.sum((s - m * np.eye(p)) ** 2)` -/
 def eyeD2 (rows : List (Row α)) (p : Nat) : α :=
-  rsum2 p (fun j k => (eyeS rows j k - eyeM rows p * delta j k)
-                      * (eyeS rows j k - eyeM rows p * delta j k))
+  rsum2 p (fun j k => Rsa.Gen.C14.lwD2term (eyeS rows j k) (eyeM rows p) (delta j k))
 
 /-- `b2 = min(d2, b2)` -/
 def eyeB2 (rows : List (Row α)) (p : Nat) : α :=
@@ -108,15 +112,17 @@ def eyeB2 (rows : List (Row α)) (p : Nat) : α :=
 def eyeLambda (rows : List (Row α)) (p : Nat) : α :=
   if 0 < eyeD2 rows p then eyeB2 rows p / eyeD2 rows p else 0
 
-/-- one entry of `_covariance_eye` given the scalars:
-    `(b2/d2 * m * eye + (d2-b2)/d2 * s) * n / dof` -/
-def covEyeEntry (s d2 b2 m n dof : α) (j k : Nat) : α :=
-  Rsa.Gen.C14.lwRescale
-    (if 0 < d2 then Rsa.Gen.C14.lwCombine b2 d2 m (delta j k) s else s) n dof
+/-- one entry of `_covariance_eye` given the scalars (`b2` *before* the `min`): the statements
+    of the source from `b2 = min(d2, b2)` to `return` — the guard `if d2 > 0`, the combination
+    `b2/d2 * m * eye + (d2-b2)/d2 * s`, the `else: s`, and the `* n / dof` rescale after it —
+    as the derived leaf `lwTail` (Rsa/Lemmas/C14 `lwTail_eq` relates it to the single-expression
+    leaves `lwB2min`, `lwCombine`, `lwRescale`) -/
+def covEyeEntry (s d2 b2raw m n dof : α) (j k : Nat) : α :=
+  Rsa.Gen.C14.lwTail s d2 b2raw m (delta j k) n dof
 
 /-- `_covariance_eye` as coded -/
 def covEyeC (rows : List (Row α)) (dof : α) (p : Nat) : Mat α :=
-  fun j k => covEyeEntry (eyeS rows j k) (eyeD2 rows p) (eyeB2 rows p) (eyeM rows p)
+  fun j k => covEyeEntry (eyeS rows j k) (eyeD2 rows p) (eyeB2raw rows p) (eyeM rows p)
     (rows.length : α) dof j k
 
 /-! #### Schäfer–Strimmer (`_covariance_diag`) -/
@@ -145,38 +151,71 @@ def sdVarHat (rows : List (Row α)) (dof : α) : Mat α :=
 
 def sdNum (rows : List (Row α)) (dof : α) (p : Nat) : α := rsumOff p (sdVarHat rows dof)
 def sdDen (rows : List (Row α)) (dof : α) (p : Nat) : α :=
-  rsumOff p (fun j k => sdSMean rows dof j k * sdSMean rows dof j k)
+  rsumOff p (fun j k => Rsa.Gen.C14.ssDenTerm (sdSMean rows dof j k))
 
-/-- `lamb = max(min(num / den, 1), 0)`; `0` when `den` is not positive (repaired: then
-    `s` is already diagonal) -/
+/-- some channel has no positive variance (a constant channel: `var = 0`, `std = 0`).  In
+    the source the correlation entries of that channel are then `0 / 0 = NaN`, the sums
+    `np.sum(var_hat[mask])`, `np.sum(s_mean[mask] ** 2)` are NaN and the guard `denom > 0`
+    is False.  The model's number types have no NaN, so this IEEE path is made explicit. -/
+def sdDegenerate (rows : List (Row α)) (dof : α) (p : Nat) : Bool :=
+  (List.range p).any (fun j => !(decide (0 < sdVar rows dof j)))
+
+/-- the two reductions as the guard sees them: `(num, denom)`, and `(0, 0)` standing for
+    the NaN pair (both make `denom > 0` False) when a channel is constant -/
+def sdNumG (rows : List (Row α)) (dof : α) (p : Nat) : α :=
+  if sdDegenerate rows dof p then 0 else sdNum rows dof p
+def sdDenG (rows : List (Row α)) (dof : α) (p : Nat) : α :=
+  if sdDegenerate rows dof p then 0 else sdDen rows dof p
+
+/-- the shrinkage intensity: the guard statement of the source
+    `if denom > 0: lamb = max(min(num / denom, 1), 0) else: lamb = 0.` (derived leaf) -/
 def sdLambda (rows : List (Row α)) (dof : α) (p : Nat) : α :=
-  if 0 < sdDen rows dof p then
-    Rsa.Gen.C14.ssClip (Rsa.Gen.C14.ssLambRaw (sdNum rows dof p) (sdDen rows dof p))
-  else 0
+  Rsa.Gen.C14.ssLambda (sdNumG rows dof p) (sdDenG rows dof p)
 
-/-- one entry of `_covariance_diag` given the intensity: `s * (eye + (1 - lamb) * mask)` -/
-def covSDiagEntry (s lam : α) (j k : Nat) : α :=
-  Rsa.Gen.C14.ssShrink s (Rsa.Gen.C14.ssScaling (delta j k) lam (if j = k then 0 else 1))
+/-- one entry of `_covariance_diag` given the two reductions: the source from the guard to
+    `return` (`scaling = eye + (1 - lamb) * mask`, `s * scaling`) as the derived leaf `ssTail`;
+    `mask = ~eye` is the derived `ssMask` -/
+def covSDiagEntry (s num den : α) (j k : Nat) : α :=
+  Rsa.Gen.C14.ssTail num den s (delta j k) (Rsa.Gen.C14.ssMask (delta j k))
 
 /-- `_covariance_diag` as coded -/
 def covSDiagC (rows : List (Row α)) (dof : α) (p : Nat) : Mat α :=
-  fun j k => covSDiagEntry (sdS rows dof j k) (sdLambda rows dof p) j k
+  fun j k => covSDiagEntry (sdS rows dof j k) (sdNumG rows dof p) (sdDenG rows dof p) j k
 
 /-! #### `_estimate_covariance` and the three entry points -/
 
-/-- the method dispatch of `_estimate_covariance` on an already demeaned matrix -/
+/-- the estimator functions by their code (order of `ESTIMATOR_CODES` in harness/leaves/C14.py:
+    `_covariance_full`, `_variance`, `_covariance_eye`, `_covariance_diag`) -/
+def estimatorByCode (c : Nat) (rows : List (Row α)) (dof : α) (p : Nat) : Mat α :=
+  match c with
+  | 0 => covFullC rows dof
+  | 1 => varianceC rows dof
+  | 2 => covEyeC rows dof p
+  | 3 => covSDiagC rows dof p
+  | _ => fun _ _ => 0
+
+/-- the method dispatch of `_estimate_covariance` on an already demeaned matrix: the
+    `if method == ...` chain of the source as the derived table `dispatch` -/
 def estimateC (m : Method) (rows : List (Row α)) (dof : α) (p : Nat) : Mat α :=
-  match m with
-  | .full => covFullC rows dof
-  | .diag => varianceC rows dof
-  | .eye => covEyeC rows dof p
-  | .sdiag => covSDiagC rows dof p
+  estimatorByCode (Rsa.Gen.C14.dispatch m.code) rows dof p
+
+/-- `if dof is None: dof = dof_nat` of `_estimate_covariance` (derived, two specialisations) -/
+def dofPick (dof : Option α) (nat : α) : α :=
+  match dof with
+  | none => Rsa.Gen.C14.dofChoiceNone nat
+  | some d => Rsa.Gen.C14.dofChoiceSome d nat
+
+/-- `if dof is None: dof = matrix.shape[0] - len(values)` of `cov_from_unbalanced` -/
+def dofPickUnb (dof : Option α) (n c : Nat) : α :=
+  match dof with
+  | none => Rsa.Gen.C14.dofUnbChoiceNone n c
+  | some d => Rsa.Gen.C14.dofUnbChoiceSome d n c
 
 /-- `_estimate_covariance` on a 2-D matrix: `_check_demean` (global mean, natural dof
     `n - 1` from the source text) then the dispatch; `dof = none` is Python's `None`. -/
 def estimate2 (m : Method) (rows : List (Row α)) (dof : Option α) (p : Nat) : Mat α :=
   estimateC m (demean rows)
-    (dof.getD ((Rsa.Gen.C14.dofResiduals rows.length : Nat) : α)) p
+    (dofPick dof ((Rsa.Gen.C14.dofResiduals rows.length : Nat) : α)) p
 
 /-- `cov_from_residuals` on one matrix -/
 def covFromResiduals (m : Method) (rows : List (Row α)) (dof : Option α) (p : Nat) : Mat α :=
@@ -229,7 +268,7 @@ def covFromMeasurements (m : Method) (obs : List (Obs α)) (dof : Option α) (p 
   | none => none
   | some R =>
     some (estimateC m (demean3 (groups obs))
-      (dof.getD ((Rsa.Gen.C14.dofTensor (groups obs).length R : Nat) : α)) p)
+      (dofPick dof ((Rsa.Gen.C14.dofTensor (groups obs).length R : Nat) : α)) p)
 
 /-- `matrix -= means[inverse]` : every observation minus the mean of its own condition,
     in dataset order -/
@@ -240,7 +279,8 @@ def residUnb (obs : List (Obs α)) : List (Row α) :=
     `_estimate_covariance`, i.e. are demeaned a second time (globally). -/
 def covFromUnbalanced (m : Method) (obs : List (Obs α)) (dof : Option α) (p : Nat) : Mat α :=
   estimateC m (demean (residUnb obs))
-    (dof.getD ((Rsa.Gen.C14.dofUnbalanced obs.length (uniq (labels obs)).length : Nat) : α)) p
+    (dofPick (some (dofPickUnb dof obs.length (uniq (labels obs)).length))
+      ((Rsa.Gen.C14.dofResiduals obs.length : Nat) : α)) p
 
 /-! ### List inputs -/
 
@@ -277,6 +317,35 @@ def covFromDatasetList (m : Method) (dss : List (List (Obs α))) (d : DofArg α)
 
 end dataset
 
+/-! ### Axis bookkeeping of the measurement tensor
+
+  `get_measurements_tensor` stacks the per-condition blocks (repetition × channel) along
+  `stackAxis` and swaps two axes; `_check_demean` takes the mean along `demeanAxis3d`,
+  transposes and reshapes to `(shape[0] * shape[2], shape[1])`.  Axis *labels*:
+  0 = condition, 1 = repetition, 2 = channel.  `demean3` / `dofTensor C R` above presuppose
+  what `Rsa.Props.C14.tensor_layout` proves from the constants regenerated from the source:
+  the mean runs over the repetitions, `shape[0]` is the condition and `shape[2]` the
+  repetition count, and after the transpose the order is (condition, repetition, channel). -/
+
+/-- `np.stack(blocks, axis=a)` of blocks with axes `[1, 2]`: the new axis 0 at position `a` -/
+def stackAxes (a : Nat) : List Nat := ([1, 2].take a) ++ [0] ++ ([1, 2].drop a)
+
+/-- `np.swapaxes(t, a, b)` on the axis labels -/
+def swapAxes (a b : Nat) (l : List Nat) : List Nat :=
+  (List.range l.length).map (fun i =>
+    if i = a then l[b]?.getD 9 else if i = b then l[a]?.getD 9 else l[i]?.getD 9)
+
+/-- `t.transpose(perm)` on the axis labels -/
+def permuteAxes (perm : List Nat) (l : List Nat) : List Nat := perm.map (fun i => l[i]?.getD 9)
+
+/-- axis labels of the tensor `get_measurements_tensor` returns -/
+def tensorAxes : List Nat :=
+  swapAxes Rsa.Gen.C14.swapA Rsa.Gen.C14.swapB (stackAxes Rsa.Gen.C14.stackAxis)
+
+/-- axis labels after the `transpose` in the 3-D branch of `_check_demean` -/
+def tensorAxesT : List Nat :=
+  permuteAxes [Rsa.Gen.C14.transpose0, Rsa.Gen.C14.transpose1, Rsa.Gen.C14.transpose2] tensorAxes
+
 /-! ### Evaluation plan used by the driver
 
   A `Row` is a function, so `demean rows` re-derives the column mean on every read and a
@@ -308,20 +377,22 @@ variable [LT α] [DecidableLT α] [LE α] [DecidableLE α] [Max α] [Min α] [Ha
 
 def covEyeL (rows : List (Row α)) (dof : α) (p : Nat) : List (List α) :=
   let d2 := eyeD2 rows p
-  let b2 := eyeB2 rows p
+  let b2 := eyeB2raw rows p
   let m := eyeM rows p
   matList p (fun j k => covEyeEntry (eyeS rows j k) d2 b2 m (rows.length : α) dof j k)
 
 def covSDiagL (rows : List (Row α)) (dof : α) (p : Nat) : List (List α) :=
-  let lam := sdLambda rows dof p
-  matList p (fun j k => covSDiagEntry (sdS rows dof j k) lam j k)
+  let num := sdNumG rows dof p
+  let den := sdDenG rows dof p
+  matList p (fun j k => covSDiagEntry (sdS rows dof j k) num den j k)
 
 def estimateCL (m : Method) (rows : List (Row α)) (dof : α) (p : Nat) : List (List α) :=
-  match m with
-  | .full => matList p (covFullC rows dof)
-  | .diag => matList p (varianceC rows dof)
-  | .eye => covEyeL rows dof p
-  | .sdiag => covSDiagL rows dof p
+  match Rsa.Gen.C14.dispatch m.code with
+  | 0 => matList p (covFullC rows dof)
+  | 1 => matList p (varianceC rows dof)
+  | 2 => covEyeL rows dof p
+  | 3 => covSDiagL rows dof p
+  | _ => matList p (fun _ _ => 0)
 
 /-- the demeaned rows `_estimate_covariance` works on, tabulated -/
 def residRows2 (rows : List (Row α)) (p : Nat) : List (Row α) :=
@@ -336,7 +407,7 @@ def residRowsUnb (obs : List (Obs α)) (p : Nat) : List (Row α) :=
 def covFromResidualsL (m : Method) (rows : List (Row α)) (dof : Option α) (p : Nat) :
     List (List α) :=
   estimateCL m (residRows2 rows p)
-    (dof.getD ((Rsa.Gen.C14.dofResiduals rows.length : Nat) : α)) p
+    (dofPick dof ((Rsa.Gen.C14.dofResiduals rows.length : Nat) : α)) p
 
 def covFromMeasurementsL (m : Method) (obs : List (Obs α)) (dof : Option α) (p : Nat) :
     Option (List (List α)) :=
@@ -344,12 +415,13 @@ def covFromMeasurementsL (m : Method) (obs : List (Obs α)) (dof : Option α) (p
   | none => none
   | some R =>
     some (estimateCL m (residRows3 (groups obs) p)
-      (dof.getD ((Rsa.Gen.C14.dofTensor (groups obs).length R : Nat) : α)) p)
+      (dofPick dof ((Rsa.Gen.C14.dofTensor (groups obs).length R : Nat) : α)) p)
 
 def covFromUnbalancedL (m : Method) (obs : List (Obs α)) (dof : Option α) (p : Nat) :
     List (List α) :=
   estimateCL m (residRowsUnb obs p)
-    (dof.getD ((Rsa.Gen.C14.dofUnbalanced obs.length (uniq (labels obs)).length : Nat) : α)) p
+    (dofPick (some (dofPickUnb dof obs.length (uniq (labels obs)).length))
+      ((Rsa.Gen.C14.dofResiduals obs.length : Nat) : α)) p
 
 end fast
 
